@@ -21,7 +21,13 @@ static unsigned char *unhex (const char *h, int *len)
   return b;
 }
 
+static void dump_msg_nonl (DBusMessage *m, int consumed);
 static void dump_msg (DBusMessage *m, int consumed)
+{
+  dump_msg_nonl (m, consumed);
+  printf ("\n");
+}
+static void dump_msg_nonl (DBusMessage *m, int consumed)
 {
   dbus_uint32_t fds = 0;
   int has_fds, flags = 0;
@@ -54,7 +60,6 @@ static void dump_msg (DBusMessage *m, int consumed)
   printf (" ci="); dump_hex_str (stdout, dbus_message_get_container_instance (m));
   printf (" body=");
   if (dbus_message_iter_init (m, &it)) dump_iter (stdout, &it);
-  printf ("\n");
 }
 
 int
@@ -63,6 +68,40 @@ main (void)
   static char line[1 << 22];
   while (fgets (line, sizeof line, stdin))
     {
+      if (!strncmp (line, "wire chunks ", 12))
+        {
+          /* wire chunks <max> <hex>... : one loader, one feed per chunk */
+          char *save = NULL, *tok = strtok_r (line + 12, " \n", &save);
+          DBusMessageLoader *l = _dbus_message_loader_new ();
+          DBusMessage *m; int nm = 0;
+          static char out[1 << 22]; FILE *mem = fmemopen (out, sizeof out, "w");
+          _dbus_message_loader_set_max_message_size (l, atol (tok));
+          while ((tok = strtok_r (NULL, " \n", &save)) != NULL)
+            {
+              int clen; unsigned char *cb = unhex (tok, &clen);
+              DBusString *b;
+              _dbus_message_loader_get_buffer (l, &b, NULL, NULL);
+              if (!_dbus_string_append_len (b, (const char *) cb, clen)) return 2;
+              _dbus_message_loader_return_buffer (l, b);
+              free (cb);
+              if (!_dbus_message_loader_queue_messages (l)) return 2;
+              while ((m = _dbus_message_loader_pop_message (l)) != NULL)
+                {
+                  FILE *save_out = stdout;
+                  nm++;
+                  fputs (" | ", mem);
+                  stdout = mem; dump_msg_nonl (m, 0); stdout = save_out;
+                  dbus_message_unref (m);
+                }
+              if (_dbus_message_loader_get_is_corrupted (l)) break;   /* the transport disconnects */
+            }
+          fclose (mem);
+          printf ("msgs=%d corrupt=%d%s\n", nm, _dbus_message_loader_get_is_corrupted (l) ? 1 : 0, out);
+          out[0] = 0;
+          _dbus_message_loader_unref (l);
+          fflush (stdout);
+          continue;
+        }
       char cmd[32]; static char hex[1 << 22]; long mx = 0; int nfds = 0;
       int n = sscanf (line, "wire %31s %4194000s %ld %d", cmd, hex, &mx, &nfds);
       int len; unsigned char *buf;
